@@ -7,7 +7,7 @@ property monitors on real traces -> on any broken obligation / disagreement sear
 input -> verdict + evidence."""
 import sys, os, json, random, shutil, time, re, traceback
 sys.path.insert(0, os.path.dirname(os.path.abspath(__file__)))
-import vlib, kapi, genapi, monitors, ksizes, kcrypto, kattr
+import vlib, kapi, genapi, monitors, ksizes, kcrypto, kattr, kguard
 
 TRUSTED_BASE = [
     'Coq 8.16.1 kernel (coqc, full .vo build); vm_compute used for reflection over regenerated tables and finite sweeps; no native_compute',
@@ -307,7 +307,7 @@ def check_C12(res, tier, seed):
 
 def _kc_job(args):
     fn, a = args[0], args[1:]
-    mod = kattr if fn.startswith('seq_attr') else kcrypto
+    mod = kattr if fn.startswith('seq_attr') else kguard if fn.startswith('seq_guard') else kcrypto
     return getattr(mod, fn)(*a)
 
 
@@ -365,6 +365,16 @@ def check_C13(res, tier, seed):
     finish_proof_side(c, res, 'C13')
 
 
+def check_C07(res, tier, seed):
+    c = prepare('C07', res)
+    stats, distinct, samples = run_kcrypto(c, res, 'C07', 'seq_guard', 320 if tier == 'quick' else 8000, seed, stream='K-guard')
+    res.coverage.update({'evaluations': stats['calls'], 'distinct_nontrivial': distinct,
+                         'rule': 'per sequence one slots.mechanisms configuration (ALL / random positive list / random negative list), C_GetMechanismList compared with it, 10 keys (AES, generic secret, DES3, RSA public, RSA private; usage flags all true or all false; CKA_ALLOWED_MECHANISMS absent or 1-3 mechanisms), then 70 cells: C_EncryptInit / C_DecryptInit / C_SignInit / C_VerifyInit / C_WrapKey / C_UnwrapKey (valid blobs built with the reference implementations) / C_DeriveKey / C_DigestInit / C_GenerateKey / C_GenerateKeyPair with a mechanism drawn 75% from those fitting the key and 25% from all the operation dispatches on; a call that returns CKR_OK must have had the usage flag, a fitting class/type, an allowed and an advertised mechanism; finally a CKA_ALWAYS_AUTHENTICATE private key: no output before the context-specific login',
+                         'samples': samples, 'k_guard': stats, 'traces_validated_against_impl': stats['sequences'],
+                         'not_covered': 'DSA / DH / EC / EdDSA / GOST keys as operands (RSA is the asymmetric representative; EC only through key-pair generation); single DES (legacy provider absent)'})
+    finish_proof_side(c, res, 'C07')
+
+
 ATTR_RULE = ('per sequence 4-8 keys made by create / generate / unwrap / derive (ECB data, concatenations) / copy / generate-then-protect / RSA private import with random SENSITIVE, EXTRACTABLE, WRAP_WITH_TRUSTED; after each: history attributes against the ghost record, C_GetAttributeValue of secret attributes with buffers {NULL,0,n-1,n,n+9} alone or mixed, then one of: weakening attempts by set/copy (canonical and non-canonical true bytes), wrapping under untrusted/trusted keys, read-only attributes and MODIFIABLE/COPYABLE/DESTROYABLE gates, caller-supplied history attributes on create/generate/derive; TRUSTED by user vs SO; private->public copy')
 
 
@@ -390,7 +400,7 @@ def kapi_check(pid, profile, monitor_name, rule, nq=400, nt=12000, nops=45):
 
 
 RULE = 'model-guided random call sequences over 2 tokens and up to ~8 sessions (%s profile of tools/genapi.py); a trace is non-trivial when at least 3 calls after the prelude succeed; distinct = distinct (op, rv) sequences'
-CHECKS = {'C03': check_C03, 'C12': check_C12, 'C02': attr_check('C02'), 'C08': attr_check('C08'), 'C10': check_C10, 'C13': check_C13,
+CHECKS = {'C03': check_C03, 'C07': check_C07, 'C12': check_C12, 'C02': attr_check('C02'), 'C08': attr_check('C08'), 'C10': check_C10, 'C13': check_C13,
           'C01': kapi_check('C01', 'objects', 'monitor_c01', RULE % 'objects'),
           'C04': kapi_check('C04', 'pins', 'monitor_c03', RULE % 'pins'),
           'C11': kapi_check('C11', 'handles', 'monitor_c11', RULE % 'handles'),
